@@ -60,6 +60,7 @@ type Config struct {
 	KeywordNames         bool // Go keywords in the stress name pool
 	TypedefContainerConst     bool // constant/default whose type is a typedef of a container: thriftgo panics (nil deref in resolveConst)
 	StructLiteralInContainer  bool // struct literals inside list/set/map literals: do not compile under value_type_in_container
+	CrossFileLiteralIdents    bool // identifiers (constants, enum members) inside a literal of a struct that is defined in ANOTHER file: resolved in the wrong scope, index out of range in getIDValue
 	ExponentDoubles      bool // 1.5e-3: the parser takes the exponent for the value (DESIGN §7, C03)
 	DupThrows            bool // the same exception type twice in one throws list (duplicate case in the processor's type switch)
 }
@@ -102,6 +103,7 @@ type gen struct {
 	consts []constInfo
 	ctr    map[string]int
 	done   []bool // file fully generated
+	noIdent int            // > 0: inside a literal in which identifiers must not be used
 	will   map[*Field]bool // fields that are going to get a default (decided before any literal is built)
 }
 
@@ -979,7 +981,7 @@ var niceStrings = []string{"", "a", "hello", "Hello World", "x_y", "0", "true", 
 // default or constant body (identifiers allowed).
 func (g *gen) constOf(fi int, t *Type, depth int, top bool) *Const {
 	// by identifier of a matching constant
-	if g.cfg.ConstIdents && g.r.Chance(20) {
+	if g.cfg.ConstIdents && g.noIdent == 0 && g.r.Chance(20) {
 		key := g.typeKey(t)
 		var cand []constInfo
 		for _, c := range g.consts {
@@ -1090,13 +1092,17 @@ func (g *gen) constOf(fi int, t *Type, depth int, top bool) *Const {
 		if e := f.enum(d.Named.Name); e != nil {
 			ev := e.Values[g.r.Intn(len(e.Values))]
 			reachable := d.Named.File == fi || g.includes(fi, d.Named.File)
-			if !reachable || g.cfg.EnumByNumber && g.r.Chance(25) {
+			if !reachable || g.noIdent > 0 || g.cfg.EnumByNumber && g.r.Chance(25) {
 				return &Const{Kind: CInt, Text: strconv.FormatInt(ev.Value, 10), Val: values.Int(ev.Value)}
 			}
 			return &Const{Kind: CIdent, Text: g.qualify(fi, *d.Named) + "." + ev.Name, Val: values.Int(ev.Value)}
 		}
 		st := f.strct(d.Named.Name)
 		c := &Const{Kind: CMap, Sep: sep, Val: &values.Value{K: values.KRecord}}
+		if d.Named.File != fi && !g.cfg.CrossFileLiteralIdents {
+			g.noIdent++
+			defer func() { g.noIdent-- }()
+		}
 		set1 := false
 		for _, fd := range st.Fields {
 			z := g.zeroOfField(st, fd)
